@@ -501,8 +501,10 @@ def _dead_else_raises(ctx):
     dr = repo.func(RECV)
     rwe = {int(x) for x in repo.get(ASH, "RESERVED_WITHOUT_ESCAPE")}
     members = repo.cls(ASH, "Reserved").members()
+    # the selected byte is a member of RESERVED_WITHOUT_ESCAPE: the membership test may live in data_received or in a helper
+    # of the class (R02.2 explores the selection and reports any path on which the dispatch falls through)
     src_ok = any(isinstance(n, ast.Compare) and isinstance(n.ops[0], ast.In) and text(n.comparators[0]) == "RESERVED_WITHOUT_ESCAPE"
-                 for n in ast.walk(dr.node))
+                 for n in ast.walk(dr.cls.node))
     for n in ast.walk(dr.node):
         if (isinstance(n, ast.If) and isinstance(n.test, ast.Compare) and isinstance(n.test.left, ast.Name) and len(n.test.comparators) == 1
                 and text(n.test.comparators[0]).startswith("Reserved.")):
@@ -609,7 +611,8 @@ def r02_2(ctx):
     MAX = const(ctx, ASH, "MAX_BUFFER_SIZE", int)
     names = {m.value: n for n, m in repo.cls(ASH, "Reserved").members().items()}
     for disc in (False, True):
-        px = PX(repo, models=models, inline=lambda fr, aw: False, while_bound=1, refine_membership=True, loop_iters=(0, 1, 2),
+        px = PX(repo, models=models, inline=inline_ash(stop=("frame_received", "_write_frame", "_unstuff_bytes")), while_bound=1, refine_membership=True,
+                loop_iters=(0, 1, 2),
                 facts={f"({MAX} < len(B))": False, "(len(B) < %d)" % (MAX + 1): True})
 
         def setup():
@@ -675,11 +678,10 @@ def r02_2(ctx):
                     if not picks and not any(e.kind == "iterate" for e in p.events):
                         raise AnalysisError("scanner does not select the first reserved byte in a recognised form (next(...) over the buffer, or a loop over it)")
                     if chosen:
-                        bt = chosen[-1][0].split(":")[1]
+                        # the scanner must act on the FIRST byte that turned out to be reserved
+                        bt = chosen[0][0].split(":")[1]
                         idx = bt[:-2] + ".0" if bt.endswith(".1") else bt
-                        o = (Sym(idx), chosen[-1][1])
-                        if len(chosen) > 1:
-                            raise AnalysisError("scanner selects more than one byte per iteration")
+                        o = (Sym(idx), chosen[0][1])
                     else:
                         o = "raises StopIteration"
                 if isinstance(o, str) and o.startswith("raises"):
@@ -755,6 +757,9 @@ def _edit_verdict(buf, cur, rest, idx="i"):
 
     t = getattr(buf, "tag", repr(buf))
     i = re.escape(idx)
+    other = r"enumerate\([^)]*\)\[\d+\]\.0"
+    if re.search(other, t) and idx not in t:
+        return f"buffer edit {t} is based on a later byte although an earlier byte of the buffer was a reserved byte (first reserved byte at {idx})"
     if re.fullmatch(re.escape(cur) + r"\[(None|" + i + r"|\(" + i + r" [+-] \d+\)):(None|" + i + r"|\(" + i + r" [+-] \d+\))\]", t) or t == cur:
         return f"buffer after the reserved byte is {t}, must be {rest.tag} (everything after that byte)"
     return "UNRECOGNISED"
@@ -770,7 +775,7 @@ def r02_4(ctx):
     ctx.require(0 < MAX <= 1 << 20, "MAX_BUFFER_SIZE", f"MAX_BUFFER_SIZE = {MAX}")
     f = repo.func(RECV)
     cls = ash_cls(ctx)
-    px = PX(repo, inline=lambda fr, aw: False, max_paths=50)
+    px = PX(repo, inline=inline_ash(stop=("frame_received", "_write_frame")), max_paths=50)
     for have in (0, 1, MAX - 1, MAX):
         for n in (0, 1, 2, MAX - 1, MAX, MAX + 1, 3 * MAX + 7):
             old = bytes([0x41 + (i % 7) for i in range(have)])
